@@ -5,6 +5,7 @@ import (
 	"crypto"
 	"crypto/rand"
 	"errors"
+	"fmt"
 	"net/url"
 	"time"
 
@@ -45,40 +46,50 @@ type ResourceIntegrity struct {
 
 // Encode encodes s as a CBOR item.
 func (s *SignedSubset) Encode() ([]byte, error) {
+	// The entry callbacks cannot return an error: remember the first one.
+	var encErr error
+	check := func(err error) {
+		if err != nil && encErr == nil {
+			encErr = err
+		}
+	}
 	mes := []*cbor.MapEntryEncoder{
 		cbor.GenerateMapEntry(func(keyE *cbor.Encoder, valueE *cbor.Encoder) {
-			keyE.EncodeTextString("validity-url")
-			valueE.EncodeTextString(s.ValidityUrl.String())
+			check(keyE.EncodeTextString("validity-url"))
+			check(valueE.EncodeTextString(s.ValidityUrl.String()))
 		}),
 		cbor.GenerateMapEntry(func(keyE *cbor.Encoder, valueE *cbor.Encoder) {
-			keyE.EncodeTextString("auth-sha256")
-			valueE.EncodeByteString(s.AuthSha256)
+			check(keyE.EncodeTextString("auth-sha256"))
+			check(valueE.EncodeByteString(s.AuthSha256))
 		}),
 		cbor.GenerateMapEntry(func(keyE *cbor.Encoder, valueE *cbor.Encoder) {
-			keyE.EncodeTextString("date")
-			valueE.EncodeInt(s.Date.Unix())
+			check(keyE.EncodeTextString("date"))
+			check(valueE.EncodeInt(s.Date.Unix()))
 		}),
 		cbor.GenerateMapEntry(func(keyE *cbor.Encoder, valueE *cbor.Encoder) {
-			keyE.EncodeTextString("expires")
-			valueE.EncodeInt(s.Expires.Unix())
+			check(keyE.EncodeTextString("expires"))
+			check(valueE.EncodeInt(s.Expires.Unix()))
 		}),
 		cbor.GenerateMapEntry(func(keyE *cbor.Encoder, valueE *cbor.Encoder) {
-			keyE.EncodeTextString("subset-hashes")
+			check(keyE.EncodeTextString("subset-hashes"))
 			subsetHashes := []*cbor.MapEntryEncoder{}
 			for url, rh := range s.SubsetHashes {
 				subsetHashes = append(subsetHashes,
 					cbor.GenerateMapEntry(func(keyE *cbor.Encoder, valueE *cbor.Encoder) {
-						keyE.EncodeTextString(url)
-						valueE.EncodeArrayHeader(1 + len(rh.Hashes)*2)
-						valueE.EncodeByteString(rh.VariantsValue)
+						check(keyE.EncodeTextString(url))
+						check(valueE.EncodeArrayHeader(1 + len(rh.Hashes)*2))
+						check(valueE.EncodeByteString(rh.VariantsValue))
 						for _, ri := range rh.Hashes {
-							valueE.EncodeByteString(ri.HeaderSha256)
-							valueE.EncodeTextString(ri.PayloadIntegrityHeader)
+							check(valueE.EncodeByteString(ri.HeaderSha256))
+							check(valueE.EncodeTextString(ri.PayloadIntegrityHeader))
 						}
 					}))
 			}
-			valueE.EncodeMap(subsetHashes)
+			check(valueE.EncodeMap(subsetHashes))
 		}),
+	}
+	if encErr != nil {
+		return nil, fmt.Errorf("signature: failed to encode the signed subset: %v", encErr)
 	}
 	var buf bytes.Buffer
 	enc := cbor.NewEncoder(&buf)
